@@ -16,31 +16,29 @@ Proof.
   simpl in Hin. repeat (destruct Hin as [<-|Hin]; [split; unfold Qle; simpl; lia|]). destruct Hin.
 Qed.
 
-(* what a validator accepts, its grammar allows - except a negative flex-grow / flex-shrink (finding F133) *)
+(* what a validator accepts, its grammar allows (negative flex factors used to be the exception: F133, repaired) *)
 Theorem validators_within_grammar p k v i :
-  impl_accepts p k v i = true ->
-  css_accepts p k v i = true \/ (str_in p NUM_GE_0 = true /\ nonneg v = false).
+  impl_accepts p k v i = true -> css_accepts p k v i = true.
 Proof.
   unfold impl_accepts, css_accepts.
-  destruct (str_in p INT_GE_1); [now left|].
-  destruct (str_in p INT_ANY); [now left|].
-  destruct (str_in p NUM_GE_0).
-  { intro H. destruct (nonneg v) eqn:N; [left; now rewrite H|right; auto]. }
-  destruct (str_in p LP_GE_0); [now left|].
-  destruct (str_in p L_GE_0); [now left|].
-  destruct (str_in p LP_ANY); [now left|].
-  destruct (str_in p L_ANY); [now left|].
+  destruct (str_in p INT_GE_1); [auto|].
+  destruct (str_in p INT_ANY); [auto|].
+  destruct (str_in p NUM_GE_0); [auto|].
+  destruct (str_in p LP_GE_0); [auto|].
+  destruct (str_in p L_GE_0); [auto|].
+  destruct (str_in p LP_ANY); [auto|].
+  destruct (str_in p L_ANY); [auto|].
   destruct (String.eqb p "tab-size").
-  { intro H. left. apply orb_true_iff in H. destruct H as [H|H].
+  { intro H. apply orb_true_iff in H. destruct H as [H|H].
     - apply andb_true_iff in H. destruct H as [H N]. apply andb_true_iff in H. destruct H as [K _].
       now rewrite K, N.
     - apply andb_true_iff in H. destruct H as [L N]. rewrite N, andb_true_r.
       unfold length_like in L. destruct k as [|[|k]]; simpl in *; auto; discriminate. }
   destruct (String.eqb p "font-weight").
-  { intro H. left. apply andb_true_iff in H. destruct H as [H W]. apply andb_true_iff in H. destruct H as [K _].
+  { intro H. apply andb_true_iff in H. destruct H as [H W]. apply andb_true_iff in H. destruct H as [K _].
     destruct (font_weights_in_range v W) as [A B]. now rewrite K, A, B. }
-  destruct (String.eqb p "opacity"); [now left|].
-  destruct (String.eqb p "line-height"); [now left|].
+  destruct (String.eqb p "opacity"); [auto|].
+  destruct (String.eqb p "line-height"); [auto|].
   discriminate.
 Qed.
 
